@@ -16,7 +16,10 @@ Inductive fedit :=
 | EInsertMsg (i j : nat) (e : ev)        (* mid.tracks[i].insert(j, msg) *)
 | EDelMsg (i j : nat)                    (* del mid.tracks[i][j] *)
 | ESetTime (i j : nat) (t : Z)           (* mid.tracks[i][j].time = t *)
-| ESetType (z : Z) | ESetTpb (z : Z).
+| ESetType (z : Z) | ESetTpb (z : Z)
+| EShift (i j : nat) (d : Z)             (* a, b = mid.tracks[i][j], mid.tracks[i][j+1]; a.time += d; b.time -= d  (same track length, same total) *)
+| ESwap (i j : nat)                      (* tr = mid.tracks[i]; tr[j], tr[j+1] = tr[j+1], tr[j] *)
+| EReverse (i : nat).                    (* mid.tracks[i].reverse() *)
 
 Fixpoint upd {A} (l : list A) (i : nat) (f : A -> A) : list A :=
   match l, i with
@@ -29,6 +32,16 @@ Fixpoint del {A} (l : list A) (i : nat) : list A :=
 Fixpoint ins {A} (l : list A) (i : nat) (x : A) : list A :=
   match l, i with l, O => x :: l | [], S _ => [x] | y :: r, S k => y :: ins r k x end.
 
+Definition shift_ticks (tr : list ev) (j : nat) (d : Z) : list ev :=
+  match nth_error tr j, nth_error tr (S j) with
+  | Some a, Some b => upd (upd tr j (fun m => set_time m (time a + d))) (S j) (fun m => set_time m (time b - d))
+  | _, _ => tr
+  end.
+Definition swap_next (tr : list ev) (j : nat) : list ev :=
+  match nth_error tr j, nth_error tr (S j) with
+  | Some a, Some b => upd (upd tr j (fun _ => b)) (S j) (fun _ => a)
+  | _, _ => tr
+  end.
 Definition edit_tracks (ts : list (list ev)) (e : fedit) : list (list ev) :=
   match e with
   | EAppendTrack tr => ts ++ [tr]
@@ -37,6 +50,9 @@ Definition edit_tracks (ts : list (list ev)) (e : fedit) : list (list ev) :=
   | EInsertMsg i j m => upd ts i (fun tr => ins tr j m)
   | EDelMsg i j => upd ts i (fun tr => del tr j)
   | ESetTime i j t => upd ts i (fun tr => upd tr j (fun m => set_time m t))
+  | EShift i j d => upd ts i (fun tr => shift_ticks tr j d)
+  | ESwap i j => upd ts i (fun tr => swap_next tr j)
+  | EReverse i => upd ts i (fun tr => List.rev tr)
   | _ => ts
   end.
 
